@@ -165,10 +165,9 @@ def check_style_precedence(ctx):
   uncond = any(isinstance(c, ast.Call) and unparse(c.func) == "self.model_element.set_style" and not any(isinstance(a, ast.If) for a in _anc(c, spec.node)) for c in own_nodes(spec.node))
   ctx.check(uncond, "PRI-style", f"{spec.qualname}|specified styles are set unconditionally", ctx.where(spec.module, spec.node), "unguarded set_style", "specified (inline) styling no longer overrides earlier values unconditionally")
   ref = ix.func(f"{EL}:ContentElement.ParsingContext.process_referential_styling")
-  loops = [lp for lp in own_nodes(ref.node) if isinstance(lp, ast.For) and "StyleAttribute.extract" in unparse(lp.iter)]
   guarded = any(isinstance(g, ast.If) and "not self.model_element.has_style" in unparse(g.test) for g in own_nodes(ref.node))
-  rev = bool(loops) and unparse(loops[0].iter).startswith("reversed(")
-  ctx.check(bool(loops) and (guarded == rev), "PRI-style", f"{ref.qualname}|later style references override earlier ones", ctx.where(ref.module, ref.node),
+  rev = _reference_order(ref)
+  ctx.check(guarded == rev, "PRI-style", f"{ref.qualname}|later style references override earlier ones", ctx.where(ref.module, ref.node),
             f"reversed iteration: {rev}, first-wins guard: {guarded}",
             f"referential styling iterates {'in reverse' if rev else 'forwards'} with{'' if guarded else 'out'} a not-already-set guard: earlier references override later ones")
   ctx.check(guarded, "PRI-style", f"{ref.qualname}|referential styling does not override nested styling", ctx.where(ref.module, ref.node), "guarded by has_style",
@@ -284,6 +283,49 @@ def check_inheritance(ctx):
         ok = ok and len(defs) == 1 and ext in unparse(defs[0])
     ctx.check(ok, "INH", f"{f.qualname}|own value else the parent's", ctx.where(f.module, f.node), f"self.{attr} = own if own is not None else parent_ctx.{attr}",
               f"xml:{attr} is no longer 'the element's own value, else the parent's'")
+
+
+def _reference_order(ref) -> bool:
+  """True when the loop over the style references of process_referential_styling visits them last to first.  Recognised: a for
+  loop over the extracted list (directly, through a local, `reversed(..)`, `[::-1]`) and a while loop over an index that starts
+  at one end and moves to the other; anything else is not decided."""
+  from ..rules import match as _m
+  defs_ = _m.local_defs(ref.node)
+
+  def base(e):
+    while isinstance(e, ast.Name) and len(defs_.get(e.id, [])) == 1:
+      e = defs_[e.id][0]
+    return e
+  for lp in own_nodes(ref.node):
+    if isinstance(lp, ast.For):
+      it, rev = lp.iter, False
+      while True:
+        it = base(it)
+        if isinstance(it, ast.Call) and isinstance(it.func, ast.Name) and it.func.id == "reversed" and len(it.args) == 1:
+          it, rev = it.args[0], not rev
+        elif isinstance(it, ast.Subscript) and isinstance(it.slice, ast.Slice) and it.slice.lower is None and it.slice.upper is None and unparse(it.slice.step or ast.Constant(1)) == "-1":
+          it, rev = it.value, not rev
+        elif isinstance(it, ast.Call) and isinstance(it.func, ast.Name) and it.func.id in ("list", "tuple", "iter") and len(it.args) == 1:
+          it = it.args[0]
+        else:
+          break
+      if "StyleAttribute.extract" in unparse(it):
+        return rev
+    if isinstance(lp, ast.While):
+      idx = [x.id for x in ast.walk(lp.test) if isinstance(x, ast.Name)]
+      for i in idx:
+        subs = [x for x in own_nodes(lp) if isinstance(x, ast.Subscript) and unparse(x.slice) == i and "StyleAttribute.extract" in unparse(base(x.value))]
+        steps = [x for x in own_nodes(lp) if isinstance(x, ast.AugAssign) and unparse(x.target) == i and isinstance(x.value, ast.Constant) and x.value.value == 1]
+        inits = defs_.get(i, [])
+        if subs and len(steps) == 1 and len(inits) == 1:
+          down = isinstance(steps[0].op, ast.Sub)
+          init = unparse(inits[0]).replace(" ", "")
+          test = unparse(lp.test).replace(" ", "")
+          if down and init.startswith("len(") and init.endswith(")-1") and test in (f"{i}>=0", f"{i}>-1", f"0<={i}"):
+            return True
+          if not down and init == "0" and test.startswith(f"{i}<len("):
+            return False
+  raise AnalysisError(f"{ref.qualname}: the loop over the style references was not recognised (for over the extracted list, or while over an index)")
 
 
 def check_reference_recursion(ctx):
